@@ -363,6 +363,81 @@ Lemma Forall_tag (k i : nat) (vs : list Z) : (i < k)%nat ->
   Forall (fun p : Z * nat => (snd p < k)%nat) (map (fun v => (v, i)) vs).
 Proof. intros H. rewrite Forall_map. cbn [snd]. apply Forall_forall. intros v _. exact H. Qed.
 
+(** ---- value level: any cover with n bins needs capped total value >= n * C ----
+    (capping a value at C: a value above C is worth no more than C to a cover) *)
+
+Definition capR (C : Z) (s s' : list Z) : Prop :=
+  Forall2 (fun a a' => 0 <= a' /\ Z.min a C <= a') s s'.
+
+Lemma Forall2_update {T U} (P : T -> U -> Prop) (f : T -> T) (f' : U -> U) :
+  (forall a a', P a a' -> P (f a) (f' a')) ->
+  forall l l', Forall2 P l l' -> forall i, Forall2 P (update i f l) (update i f' l').
+Proof.
+  intros Hf l l' H. induction H as [|a a' l l' Ha Hl IH]; intros [|i]; cbn [update].
+  - constructor.
+  - constructor.
+  - constructor; [apply Hf; exact Ha|exact Hl].
+  - constructor; [exact Ha|apply IH].
+Qed.
+
+Lemma capR_step C s s' v i : 0 < C -> 0 <= v -> capR C s s' ->
+  capR C (lstep s (v, i)) (lstep s' (Z.min v C, i)).
+Proof.
+  intros HC Hv H. unfold lstep. cbn [fst snd]. apply Forall2_update; [|exact H].
+  intros a a' [H1 H2]. split; lia.
+Qed.
+
+Definition cap_pairs (C : Z) (ps : list (Z * nat)) : list (Z * nat) :=
+  map (fun p => (Z.min (fst p) C, snd p)) ps.
+
+Lemma capR_run C ps : 0 < C -> Forall (fun p => 0 <= fst p) ps ->
+  forall s s', capR C s s' -> capR C (lrun ps s) (lrun (cap_pairs C ps) s').
+Proof.
+  intros HC. unfold lrun, cap_pairs. induction ps as [|[v i] ps IH]; intros Hnn s s' H; cbn [map fold_left].
+  - exact H.
+  - inversion Hnn as [|p' ps' Hv Hps]; subst. cbn [fst snd] in *.
+    apply IH; [exact Hps|]. apply capR_step; assumption.
+Qed.
+
+Lemma capR_zeros C k : 0 < C -> capR C (repeat 0 k) (repeat 0 k).
+Proof. intros HC. unfold capR. induction k as [|k IH]; cbn [repeat]; constructor; [lia|exact IH]. Qed.
+
+Lemma capR_sum C s s' : capR C s s' -> Forall (fun x => C <= x) s ->
+  Z.of_nat (length s) * C <= zsum s'.
+Proof.
+  unfold capR. induction 1 as [|a a' l l' [Ha1 Ha2] Hl IH]; intros HF.
+  - cbn. lia.
+  - inversion HF as [|a0 l0 Hc Hrest]; subst. specialize (IH Hrest).
+    cbn [length]. change (zsum (a' :: l')) with (a' + zsum l'). rewrite Nat2Z.inj_succ. lia.
+Qed.
+
+Lemma zsum_lrun ps : forall s, Forall (fun p => (snd p < length s)%nat) ps ->
+  zsum (lrun ps s) = zsum s + zsum (map fst ps).
+Proof.
+  unfold lrun. induction ps as [|[v i] ps IH]; intros s H; cbn [fold_left map].
+  - change (zsum []) with 0. lia.
+  - inversion H as [|p' ps' Hp Hps]; subst. cbn [fst snd] in *. rewrite IH.
+    + unfold lstep. cbn [fst snd]. rewrite zsum_update by exact Hp.
+      change (zsum (v :: map fst ps)) with (v + zsum (map fst ps)). lia.
+    + rewrite lstep_length. exact Hps.
+Qed.
+
+Lemma cover_cap_bound C n vs s : 0 < C -> Forall (fun v => 0 <= v) vs ->
+  Attainable n vs s -> Forall (fun x => C <= x) s ->
+  Z.of_nat n * C <= zsum (map (fun v => Z.min v C) vs).
+Proof.
+  intros HC Hnn Hat Hfull. apply Attainable_pairs in Hat. destruct Hat as (ps & Hm & Hf & Hs).
+  assert (HR : capR C s (lrun (cap_pairs C ps) (repeat 0 n))).
+  { rewrite <- Hs. apply capR_run; [exact HC| |apply capR_zeros; exact HC].
+    rewrite <- Hm, Forall_map in Hnn. exact Hnn. }
+  pose proof (capR_sum C _ _ HR Hfull) as Hsum.
+  assert (Hlen : length s = n). { rewrite <- Hs, lrun_length, repeat_length. reflexivity. }
+  rewrite Hlen in Hsum. rewrite zsum_lrun, zsum_repeat0 in Hsum.
+  - unfold cap_pairs in Hsum. rewrite map_map in Hsum. cbn [fst] in Hsum.
+    rewrite <- Hm, map_map. lia.
+  - rewrite repeat_length. unfold cap_pairs. rewrite Forall_map. cbn [snd]. exact Hf.
+Qed.
+
 Section CoveringProofs.
   Context {A : Type} (valueof : A -> Z).
 
@@ -465,16 +540,22 @@ Section CoveringProofs.
       apply Permutation_refl.
   Qed.
 
-  Theorem dec_cover : forall C items, 0 < C -> Forall (fun x => 0 < valueof x) items ->
+  (** positivity of the items is not needed for decreasing and twothirds *)
+  Lemma dec_cover_gen : forall C items, 0 < C ->
     exists rest, is_cover valueof C items (cover_decreasing valueof true C items) rest /\
                  zsum (map valueof rest) < C.
   Proof.
-    intros C items HC _. unfold cover_decreasing.
+    intros C items HC. unfold cover_decreasing.
     set (st := dec_sub valueof true C ([], empty_bin) (sort_desc valueof items)).
     exists (snd (snd st)). apply cinv_final. subst st.
     apply dec_sub_inv; [exact HC|]. rewrite app_nil_r.
     apply cinv_init; [exact HC|apply sort_desc_perm].
   Qed.
+
+  Theorem dec_cover : forall C items, 0 < C -> Forall (fun x => 0 < valueof x) items ->
+    exists rest, is_cover valueof C items (cover_decreasing valueof true C items) rest /\
+                 zsum (map valueof rest) < C.
+  Proof. intros C items HC _. apply dec_cover_gen. exact HC. Qed.
 
   (** ---- twothirds ---- *)
   Lemma tt_loop_inv C items : 0 < C -> forall fuel st fresh rem,
@@ -500,16 +581,21 @@ Section CoveringProofs.
         * apply unsnoc_None in U. discriminate.
   Qed.
 
-  Theorem tt_cover : forall C items, 0 < C -> Forall (fun x => 0 < valueof x) items ->
+  Lemma tt_cover_gen : forall C items, 0 < C ->
     exists rest, is_cover valueof C items (cover_twothirds valueof true C items) rest /\
                  zsum (map valueof rest) < C.
   Proof.
-    intros C items HC _. unfold cover_twothirds.
+    intros C items HC. unfold cover_twothirds.
     set (st := tt_loop valueof true (length items) C ([], empty_bin) true (sort_desc valueof items)).
     exists (snd (snd st)). apply cinv_final. subst st.
     apply tt_loop_inv; [exact HC| |rewrite sort_desc_length; lia].
     apply cinv_init; [exact HC|apply sort_desc_perm].
   Qed.
+
+  Theorem tt_cover : forall C items, 0 < C -> Forall (fun x => 0 < valueof x) items ->
+    exists rest, is_cover valueof C items (cover_twothirds valueof true C items) rest /\
+                 zsum (map valueof rest) < C.
+  Proof. intros C items HC _. apply tt_cover_gen. exact HC. Qed.
 
   (** ---- threequarters ---- *)
   Notation pos := (fun x : A => 0 < valueof x).
@@ -847,6 +933,87 @@ Section CoveringProofs.
     exact (cover_le_opt C items _ rest n Hc Hpos Hmax).
   Qed.
 
+  (** ---- C10: next-fit (in any order, so in particular decreasing) covers at least half
+      of the optimum ---- *)
+  Definition capsum (C : Z) (l : list A) : Z := zsum (map (fun x => Z.min (valueof x) C) l).
+
+  Lemma capsum_app C l1 l2 : capsum C (l1 ++ l2) = capsum C l1 + capsum C l2.
+  Proof. unfold capsum. rewrite map_app, zsum_app. reflexivity. Qed.
+
+  Lemma capsum_le C l : capsum C l <= zsum (map valueof l).
+  Proof.
+    unfold capsum. induction l as [|x t IH]; cbn [map]; [lia|].
+    change (zsum (Z.min (valueof x) C :: map (fun x => Z.min (valueof x) C) t))
+      with (Z.min (valueof x) C + zsum (map (fun x => Z.min (valueof x) C) t)).
+    change (zsum (valueof x :: map valueof t)) with (valueof x + zsum (map valueof t)). lia.
+  Qed.
+
+  Lemma capsum_single C x : capsum C [x] <= C.
+  Proof. unfold capsum. cbn. lia. Qed.
+
+  Lemma capsum_perm C l1 l2 : Permutation l1 l2 -> capsum C l1 = capsum C l2.
+  Proof. intros H. unfold capsum. apply zsum_perm, Permutation_map. exact H. Qed.
+
+  Definition half_inv (C : Z) (st : cstate (A:=A)) : Prop :=
+    Forall (fun bn => capsum C (snd bn) < 2 * C) (fst st) /\
+    wf_bin valueof (snd st) /\ fst (snd st) < C.
+
+  Lemma cover_add_half C st x : half_inv C st -> 0 < C -> half_inv C (cover_add valueof true C st x).
+  Proof.
+    intros (H1 & H2 & H3) HC. unfold cover_add. cbv zeta.
+    destruct (fst (add1 x (snd st)) >=? C) eqn:E; unfold half_inv; cbn [fst snd empty_bin].
+    - repeat split; [|exact HC]. apply Forall_app. split; [exact H1|]. constructor; [|constructor].
+      rewrite add1_snd, capsum_app. pose proof (capsum_le C (snd (snd st))) as Hle.
+      pose proof (capsum_single C x) as Hx. unfold wf_bin in H2. lia.
+    - repeat split; [exact H1| |lia]. apply add_to_bin_wf; [reflexivity|exact H2].
+  Qed.
+
+  Lemma dec_sub_half C l : forall st, half_inv C st -> 0 < C -> half_inv C (dec_sub valueof true C st l).
+  Proof.
+    unfold dec_sub. induction l as [|x t IH]; intros st H HC; cbn [fold_left]; [exact H|].
+    apply IH; [|exact HC]. apply cover_add_half; assumption.
+  Qed.
+
+  Lemma capsum_contents C (b : bins A) :
+    Forall (fun bn => capsum C (snd bn) < 2 * C) b ->
+    capsum C (contents b) <= 2 * C * Z.of_nat (length b).
+  Proof.
+    induction 1 as [|c t Hc Ht IH].
+    - cbn. lia.
+    - change (contents (c :: t)) with (snd c ++ contents t). rewrite capsum_app. cbn [length]. rewrite Nat2Z.inj_succ. lia.
+  Qed.
+
+  Theorem dec_half_strong : forall C items n, 0 < C -> Forall (fun x => 0 < valueof x) items ->
+    MaxCover C (map valueof items) n -> (n <= 2 * length (cover_decreasing valueof true C items))%nat.
+  Proof.
+    intros C items n HC Hpos [[Hn|(s & Hat & Hfull)] _]; [lia|].
+    unfold cover_decreasing.
+    set (st := dec_sub valueof true C ([], empty_bin) (sort_desc valueof items)).
+    assert (Hinv : cinv C items st []).
+    { subst st. apply dec_sub_inv; [exact HC|]. rewrite app_nil_r.
+      apply cinv_init; [exact HC|apply sort_desc_perm]. }
+    assert (Hhalf : half_inv C st).
+    { subst st. apply dec_sub_half; [|exact HC]. unfold half_inv. cbn [fst snd empty_bin].
+      repeat split; [constructor|exact HC]. }
+    destruct Hinv as (_ & _ & Hw & Hlt & HP). destruct Hhalf as (Hb & _ & _).
+    rewrite app_nil_r in HP.
+    assert (Hopt : Z.of_nat n * C <= capsum C items).
+    { unfold capsum. rewrite <- (map_map valueof (fun v => Z.min v C)).
+      apply (cover_cap_bound C n _ s); try assumption.
+      rewrite Forall_map. eapply Forall_impl; [|exact Hpos]. cbv beta. intros x Hx. lia. }
+    rewrite <- (capsum_perm C _ _ HP), capsum_app in Hopt.
+    pose proof (capsum_contents C (fst st) Hb) as H1.
+    pose proof (capsum_le C (snd (snd st))) as H2. unfold wf_bin in Hw.
+    assert (Hlt' : Z.of_nat n * C < (2 * Z.of_nat (length (fst st)) + 1) * C) by lia.
+    apply Z.mul_lt_mono_pos_r in Hlt'; [lia|exact HC].
+  Qed.
+
+  Theorem dec_half : forall C items n, 0 < C -> Forall (fun x => 0 < valueof x) items ->
+    MaxCover C (map valueof items) n -> (n <= 2 * length (cover_decreasing valueof true C items) + 1)%nat.
+  Proof.
+    intros C items n HC Hpos Hmax. pose proof (dec_half_strong C items n HC Hpos Hmax). lia.
+  Qed.
+
 End CoveringProofs.
 
 Print Assumptions dec_cover.
@@ -862,3 +1029,5 @@ Print Assumptions cover_coverable.
 Print Assumptions dec_le_opt.
 Print Assumptions tt_le_opt.
 Print Assumptions tq_le_opt.
+Print Assumptions dec_half_strong.
+Print Assumptions dec_half.
